@@ -216,12 +216,27 @@ func runC13(c *Ctx) {
 			}
 			return false
 		}
+		// the permitted state is only ever entered after a successful CreatePermissions (the
+		// transition is checked below), so seeing it — with or without the mutex — means the
+		// permission exists; "not idle" is the weaker observation and needs the mutex
+		isPermitted := func(f Fact) bool {
+			if f.Op == "==" && f.Truth {
+				for _, pair := range [][2]ssa.Value{{f.X, f.Y}, {f.Y, f.X}} {
+					if sc, _ := callOf(pair[0]); sc != nil && sc.Call.StaticCallee() == stateFn && w.sameKey(sc.Call.Args[0], createPerm.Params[1]) {
+						if k, isK := constInt(pair[1]); isK && k == permitted {
+							return true
+						}
+					}
+				}
+			}
+			return false
+		}
 		for _, r := range returnsOf(createPerm) {
 			if !isNilConst(w.resolveLoad(r.Results[0])) {
 				continue
 			}
 			nNil++
-			if ok, trail := everyPathHas(createPerm, r, func(f Fact) bool { return isCP(f) || isNotIdle(f) }); !ok {
+			if ok, trail := everyPathHas(createPerm, r, func(f Fact) bool { return isCP(f) || isNotIdle(f) || isPermitted(f) }); !ok {
 				bad = "createPermission returns nil at " + w.instrPos(r) + " on a path (" + trail + ") where neither CreatePermissions(addr) succeeded nor the permission was observed (under its mutex) to be already permitted: a concurrent writer sends before the in-flight CreatePermission is answered"
 			}
 		}
